@@ -29,6 +29,7 @@ Clauses(e) ==
               /\ {"sha256:m1", "sha256:m2"} \subseteq {x.d : x \in S(o.mans)}
               /\ {SymOf(a) : a \in UNION {Expected(L, s) : s \in Subjects}} \subseteq {x.d : x \in S(o.mans)}
               /\ {"sha256:b1", "sha256:b2", "sha256:b3"} \subseteq S(o.blobs)
+              /\ (e.bak = "" \/ e.bak \in S(o.taglist))      \* an ordinary tag that starts like a fallback tag
               /\ o.blobsbad = <<>> /\ o.mansbad = <<>> /\ o.tagsbad = <<>>>>,
     \* a writable directory store marks the layout as converted; the other stores do not touch the directory
     <<"marked", (e.store = "dir" /\ ~e.hung) => e.conv>>,
